@@ -1,6 +1,30 @@
 package chainsync
 
-import "github.com/blinklabs-io/gouroboros/protocol"
+import (
+	"github.com/blinklabs-io/gouroboros/connection"
+	"github.com/blinklabs-io/gouroboros/protocol"
+)
 
-// Overlay shim: the protocol's initial state (the value client.go/server.go pass as InitialState).
+// Overlay shim: initial state, and a client built without goroutines whose sync loop body can
+// be run against a scripted ready channel.
+
 func VerifInitialState() protocol.State { return stateIdle }
+
+func VerifNewClient(cfg *Config, id connection.ConnectionId) *Client {
+	c := &Client{config: cfg, Protocol: protocol.VerifRecordingProtocol(StateMapNtN, stateIdle)}
+	c.callbackContext = CallbackContext{Client: c, ConnectionId: id}
+	return c
+}
+
+// VerifSyncStep runs the sync loop body on exactly the given ready tokens: the channel is
+// closed after them, so the loop returns once they are consumed.
+func VerifSyncStep(c *Client, tokens ...bool) {
+	c.readyForNextBlockChan = make(chan bool, len(tokens)+1)
+	for _, t := range tokens {
+		c.readyForNextBlockChan <- t
+	}
+	close(c.readyForNextBlockChan)
+	c.syncLoop()
+}
+
+func VerifPipelined(c *Client) int { return c.syncPipelinedRequestNext }
